@@ -49,6 +49,14 @@ func (in *Interp) fpCmp(op string, a, b *Term) *Term {
 			return in.tt.Bool(x >= y)
 		}
 	}
+	if op == "fp.eq" {
+		// pure bit-vector form: neither is NaN and (same bits or both zeros)
+		tt := in.tt
+		abs := mask(a.w) >> 1
+		za := tt.Eq(tt.Bin(OpBAnd, a, tt.BV(a.w, abs)), tt.BV(a.w, 0))
+		zb := tt.Eq(tt.Bin(OpBAnd, b, tt.BV(b.w, abs)), tt.BV(b.w, 0))
+		return tt.And(tt.And(tt.Not(in.fpIsNaN(a)), tt.Not(in.fpIsNaN(b))), tt.Or(tt.Eq(a, b), tt.And(za, zb)))
+	}
 	c := fpSort(a.w)
 	return in.tt.Raw(0, "("+op+" ("+c+" %0) ("+c+" %1))", a, b)
 }
@@ -57,7 +65,17 @@ func (in *Interp) fpIsNaN(a *Term) *Term {
 	if a.op == OpConst {
 		return in.tt.Bool(math.IsNaN(fpConstFloat(a)))
 	}
-	return in.tt.Raw(0, "(fp.isNaN ("+fpSort(a.w)+" %0))", a)
+	// exponent all ones and a non-zero mantissa
+	tt := in.tt
+	var expMask, manMask uint64
+	if a.w == 32 {
+		expMask, manMask = 0x7F800000, 0x007FFFFF
+	} else {
+		expMask, manMask = 0x7FF0000000000000, 0x000FFFFFFFFFFFFF
+	}
+	e := tt.Eq(tt.mk(OpBAnd, a.w, 0, "", []*Term{a, tt.BV(a.w, expMask)}), tt.BV(a.w, expMask))
+	m := tt.Not(tt.Eq(tt.mk(OpBAnd, a.w, 0, "", []*Term{a, tt.BV(a.w, manMask)}), tt.BV(a.w, 0)))
+	return tt.And(e, m)
 }
 
 // fpArith builds a floating point arithmetic result as fresh bits tied to
